@@ -24,6 +24,7 @@ def run(ctx):
     ctx.translate(COMPONENTS)
     ctx.prove('props/C01.v')
     L.lockstep(ctx, [L.mon_c01])
+    L.reg_sweep(ctx, L.REG_KINDS['C01'])
     # removal "by dropping the object that owns it": the iterator instance records the ids it registered and
     # unregisters them in Drop; two handle clones adding a signal concurrently must not lose an id
     import c12
@@ -38,6 +39,8 @@ def run(ctx):
 def replay(ctx, path):
     case = json.load(open(path))
     sc = case.get('case', {}).get('scenario')
+    if case.get('case', {}).get('reg_sweep'):
+        return L.reg_replay(ctx, case['case'], L.REG_KINDS['C01'])
     if not sc:
         print('replay file names no concrete input:', json.dumps(case.get('broken'), indent=1)[:2000])
         return 1
